@@ -243,6 +243,34 @@ def link_closure(ctx, cfg, cb, info, role, rule):
         return
     if role in ("consumer", "builder"):
         for k in info["positions"]:
+            if isinstance(k, tuple) and k[0] == "fld":
+                # the cursor field of an owner the closure holds by `&mut`: the slots it designates are that owner's own by construction; what the
+                # parent owes is (a) the upvar is a tracked owner with that storage / cursor field, live on the driver's unwind path, and (b) the driver
+                # cannot ask for more steps than the owner has claimed slots left (the cursor never runs past the storage)
+                from .rules import pipe_max
+                from .absint import State
+                _, ku, fpos = k
+                op = g["ops"][ku] if ku < len(g["ops"]) else None
+                ok, det = False, "upvar %d = %s" % (ku, vstr(op))
+                if op is not None and op[0] == "P" and op[1][0] == "local" and not op[2].t:
+                    adt = local_adt(ap, op[1][1])
+                    if adt in owners and fpos in owners[adt]["pos"] and all(cu[1] == owners[adt]["array"] for cu in info.get("cursors", []) if cu[0] == ku) and not owners[adt]["array_is_ref"]:
+                        o = owners[adt]
+                        dropped, _hu = unwind_drops(ap, drv)
+                        live = op[1][1] in dropped
+                        lt = ap.local_ty(op[1][1])
+                        N_ = ap.tenv.length([x for x in lt["args"] if x.get("k") != "region"][-1])
+                        pv = ap.read_cell(State(drv.mem, drv.facts), op[1], (fpos,), {"k": "prim", "n": "usize"})
+                        steps = None
+                        for x in resolved_args(ap, drv):
+                            if find_in(x, lambda t: t == cval):
+                                steps = pipe_max(ap, x)
+                        room = pv[0] == "I" and steps is not None and ap.prove(drv.facts, "Ge", N_ - pv[1], steps)
+                        ok = live and bool(room)
+                        det += "; cursor field '%s' of owner %s, whose own storage the slots are; owner local _%d dropped on the unwind path of %s: %s; at most %r steps with %r slots left: %s" % (
+                            o["names"][fpos], adt.split("::")[-1], op[1][1], drv.fn, live, steps, (N_ - pv[1]) if pv[0] == "I" else "?", bool(room))
+                ctx.ob(rule, "%s#position%s" % (cb["key"], "%d.%d" % (ku, fpos)), ok, det, at=parent["at"], cfg=cfg)
+                continue
             op = g["ops"][k] if k < len(g["ops"]) else None
             ok = False
             det = "upvar %d = %s" % (k, vstr(op))
